@@ -128,6 +128,46 @@ def stressKeeps (rate : Nat) (h : Nat) : Bool :=
   | .ok d => d.keep
   | .panicDivZero => false
 
+/-! ## One long-lived `StressRelief` through a history of reloads and state changes
+
+`UpdateFromConfig` is called by the collector at start and on every configuration reload; it sets
+`mode`, `sampleRate` (0 ↦ 1) and `upperBound` unconditionally.  `Recalc` sets `stressed` from the
+mode (`never` ↦ false, `always` ↦ true; `monitor` with idle queues and no cluster reports ↦ false,
+which is the only load the harness applies).  `GetSampleRate` reads `sampleRate`/`upperBound` only. -/
+
+inductive Mode where
+  | never | monitor | always
+  deriving Repr, DecidableEq
+
+structure Relief where
+  mode : Mode
+  stressed : Bool
+  s : Stress
+  deriving Repr, DecidableEq
+
+inductive ROp where
+  | reload (m : Mode) (rate : Nat)     -- config reload: `UpdateFromConfig` with Mode, SamplingRate
+  | recalc                             -- `Recalc` with idle queues
+  deriving Repr, DecidableEq
+
+def Relief.step (r : Relief) : ROp → Outcome Relief
+  | .reload m rate =>
+    match Stress.update rate with
+    | .ok s => .ok { r with mode := m, s := s }
+    | .panicDivZero => .panicDivZero
+  | .recalc => .ok { r with stressed := (match r.mode with | .always => true | _ => false) }
+
+/-- zero-valued struct, then the `UpdateFromConfig` of collector start-up -/
+def Relief.init (m : Mode) (rate : Nat) : Outcome Relief :=
+  Relief.step { mode := .never, stressed := false, s := { sampleRate := 0, upperBound := 0 } } (.reload m rate)
+
+def Relief.run (r : Outcome Relief) (ops : List ROp) : Outcome Relief :=
+  ops.foldl (fun acc o => match acc with | .ok r => r.step o | .panicDivZero => .panicDivZero) r
+
+/-- the `SamplingRate` of the most recent reload (`init` when there was none) -/
+def lastRate (init : Nat) (ops : List ROp) : Nat :=
+  ops.foldl (fun a o => match o with | .reload _ r => r | .recalc => a) init
+
 /-! ## Counting -/
 
 /-- Number of hash values `0 … total-1` for which `p` holds. -/
